@@ -33,7 +33,7 @@ CTOR_SPARSE = ["csr", "csc", "coo", "lil", "csr_unsorted", "csr_zeros"]
 FORMS = ["lol_dense", "lol_coo", "lol_coo_zeros", "dict", "dict_zeros", "list_nparray", "list_dict",
          "list_sparse", "empty_list", "md_empty_form", "md_none_form"]
 OP_ROUTES = ["sort_roundtrip", "transpose2", "filter_all_obs", "filter_all_samp", "subsample_full_samp",
-             "subsample_full_obs", "copy"]
+             "subsample_full_obs", "copy", "md_reordered", "md_completed_later"]
 # histories that change the content; the partner is the dense construction of whatever content they reached
 CHANGING_ROUTES = ["subsample_partial_samp", "subsample_partial_obs", "filter_some_obs",
                    # ONE non-monotone reordering: the CSR layout keeps unsorted column indices
@@ -187,7 +187,60 @@ def subsample_ok(spec, axis):
     return int(tot[0])
 
 
-def build_operand(spec, route):
+INPLACE_OPS = ["pa", "norm", "scale", "rank", "swap_ids"]
+
+
+def inplace_route(base, pre, op, axis):
+    return "inplace:%s:%d:%s:%s" % (base, pre, op, axis)
+
+
+def apply_inplace(t, spec, pre, op, axis):
+    """optional reads along `axis` (pre: 0 none, 1 data() of every ID, 2 iter + data), then ONE in-place change
+    along the same axis; nothing is asked of the table afterwards"""
+    import numpy as np
+    ids = [x for x in t.ids(axis=axis)]
+    arr = arr_of(spec)
+    if op == "norm":
+        tot = arr.sum(axis=1 if axis == "observation" else 0)
+        if arr.size == 0 or (tot == 0).any() or (arr < 0).any():
+            raise Skip()
+    if op == "swap_ids" and len(ids) < 2:
+        raise Skip()
+    if pre >= 2:
+        list(t.iter(axis=axis))
+    if pre >= 1:
+        for i in ids:
+            t.data(i, axis=axis)
+            t.data(i, axis=axis, dense=False)
+    if op == "pa":
+        t.pa(inplace=True)
+    elif op == "norm":
+        t.norm(axis=axis, inplace=True)
+    elif op == "scale":
+        t.transform(lambda d, i, m: d * 2, axis=axis, inplace=True)
+    elif op == "rank":
+        t.rankdata(axis=axis, inplace=True)
+    elif op == "swap_ids":
+        t.update_ids({ids[0]: ids[-1], ids[-1]: ids[0]}, axis=axis, strict=False, inplace=True)
+    else:
+        raise ValueError(op)
+    return t
+
+
+def reorder_keys(md, which):
+    """the same entries with the key insertion order reversed on the IDs in `which` (never the first ID)"""
+    out = []
+    for i, e in enumerate(md):
+        items = list(e.items())
+        out.append(dict(reversed(items)) if (i in which and i > 0) else dict(items))
+    return out
+
+
+def reorderable(md):
+    return md is not None and len(md) >= 2 and any(len(e) >= 2 for e in md[1:])
+
+
+def build_operand(spec, route, need_model=True):
     """-> (real Table, model input JSON, facts about the constructor input)"""
     import scipy.sparse as sp
     from biom import Table
@@ -218,8 +271,39 @@ def build_operand(spec, route):
             t = Table(data, list(spec["obs"]), list(spec["samp"]), observation_metadata=omd, sample_metadata=smd,
                       type=spec.get("type"), **kw)
         return t, mi, facts
+    if route.startswith("inplace:"):
+        _, base_route, pre, op, axis = route.split(":")
+        t = build_operand(spec, base_route, need_model=False)[0]
+        apply_inplace(t, spec, int(pre), op, axis)
+        if not need_model:
+            return t, None, facts
+        c = core.table_obs(t)
+        mi = {"type": c["type"], "obs": c["obs"], "samp": c["samp"], "omd_in": c["omd"], "smd_in": c["smd"],
+              "layout": flat_rowmajor(t.matrix_data), "ctor": False, "fmt": fmt_label(t.matrix_data)}
+        return t, mi, facts
     # operation histories ending in the same content: the representation reached is an input of the model
-    if route in ("sort_roundtrip", "transpose2"):
+    if route == "md_reordered":
+        # constructor literals whose keys come in another order on some IDs
+        if not (reorderable(spec.get("omd")) or reorderable(spec.get("smd"))):
+            raise Skip()
+        s2 = copy.deepcopy(spec)
+        for ax in ("omd", "smd"):
+            if reorderable(s2.get(ax)):
+                s2[ax] = reorder_keys(s2[ax], set(range(1, len(s2[ax]), 2)) | {len(s2[ax]) - 1})
+        t = core.build(s2, "dense")
+    elif route == "md_completed_later":
+        # one ID first lacks its FIRST key, which add_metadata supplies afterwards (so it ends up last)
+        cand = [(ax, i) for ax in ("omd", "smd") if spec.get(ax) for i, e in enumerate(spec[ax]) if i > 0 and len(e) >= 2]
+        if not cand:
+            raise Skip()
+        ax, i = cand[len(cand) // 2]
+        s2 = copy.deepcopy(spec)
+        k0 = next(iter(s2[ax][i]))
+        v0 = s2[ax][i].pop(k0)
+        t = core.build(s2, "dense")
+        ids = spec["obs"] if ax == "omd" else spec["samp"]
+        t.add_metadata({ids[i]: {k0: v0}}, axis="observation" if ax == "omd" else "sample")
+    elif route in ("sort_roundtrip", "transpose2"):
         t = core.build(spec, route)
     elif route == "copy":
         t = core.build(spec, "dense").copy()
@@ -317,7 +401,7 @@ def hdf5_write_only(t):
             os.remove(path)
 
 
-def do_accessor(t, name, k, cells=None):
+def do_accessor(t, name, k, cells=None, vecs=None):
     """run one read-only accessor; returns the name the model should use (`<name>_raised` when the accessor
     refused the table); get_value answers are appended to `cells`"""
     obs = t.ids(axis="observation")
@@ -328,13 +412,21 @@ def do_accessor(t, name, k, cells=None):
         if name == "nnz":
             t.nnz
         elif name == "data_obs":
-            t.data(o, axis="observation")
+            v = t.data(o, axis="observation")
+            if vecs is not None:
+                vecs.append(["observation", str(o), fr_list(v)])
         elif name == "data_samp":
-            t.data(s, axis="sample")
+            v = t.data(s, axis="sample")
+            if vecs is not None:
+                vecs.append(["sample", str(s), fr_list(v)])
         elif name == "iter_obs":
-            list(t.iter(axis="observation"))
+            for v, i, _ in list(t.iter(axis="observation")):
+                if vecs is not None:
+                    vecs.append(["observation", str(i), fr_list(v)])
         elif name == "iter_samp":
-            list(t.iter())
+            for v, i, _ in list(t.iter()):
+                if vecs is not None:
+                    vecs.append(["sample", str(i), fr_list(v)])
         elif name == "matrix_data":
             t.matrix_data.toarray()
         elif name == "get_value":
@@ -381,13 +473,21 @@ def do_accessor(t, name, k, cells=None):
     return name
 
 
-def fresh_queries(t):
-    """per-cell, then per-ID answers of a table nothing else has touched yet (layout as built)"""
+def fresh_queries(t, order="cos", rot=0):
+    """per-cell (c), per-observation (o) and per-sample (s) answers of a table nothing else has touched yet
+    (layout as built), asked in the block order `order`, IDs rotated by `rot`"""
     obs = [str(x) for x in t.ids(axis="observation")]
     samp = [str(x) for x in t.ids()]
-    cells = [[o, s, core.frac(t.get_value_by_ids(o, s))] for o in obs for s in samp]
-    vecs = [["observation", o, fr_list(t.data(o, axis="observation"))] for o in obs]
-    vecs += [["sample", x, fr_list(t.data(x, axis="sample"))] for x in samp]
+    ro, rs = rot % max(1, len(obs)), rot % max(1, len(samp))
+    obs, samp = obs[ro:] + obs[:ro], samp[rs:] + samp[:rs]
+    cells, vecs = [], []
+    for blk in order:
+        if blk == "c":
+            cells += [[o, s, core.frac(t.get_value_by_ids(o, s))] for o in obs for s in samp]
+        elif blk == "o":
+            vecs += [["observation", o, fr_list(t.data(o, axis="observation"))] for o in obs]
+        elif blk == "s":
+            vecs += [["sample", x, fr_list(t.data(x, axis="sample"))] for x in samp]
     return cells, vecs
 
 
@@ -548,8 +648,13 @@ def exports_of(t, md_key):
     try:
         h1, h2, attrs = hdf5_export(t)
     except ValueError as e:
-        # metadata categories that differ between IDs cannot be written; both operands must then refuse
-        q.append(("hdf5_refused", type(e).__name__))
+        # metadata categories that differ between IDs cannot be written; equal tables must then BOTH be refused:
+        # the refusal is the export's result and is compared like one
+        refused = {"obs": ["<export refused: %s>" % type(e).__name__], "samp": [], "rows": [[]], "omd": None, "smd": None,
+                   "type": None}
+        ex.append(("hdf5", refused))
+        ex.append(("hdf5_sample_matrix", refused))
+        q.append(("hdf5_attrs", "refused"))
         return ex, q
     ex.append(("hdf5", h1))
     ex.append(("hdf5_sample_matrix", h2))
@@ -587,22 +692,25 @@ def run_pair(ctx, case, tags=()):
             ctx.count("ctor-input:unsorted-indices")
     # per-cell / per-ID queries first, on twins built the same way that nothing has touched
     if case["spec_b"] is None:
-        a2 = build_operand(case["spec_a"], case["route_a"])[0]
-        b2 = build_operand(spec_of_table(a2), case["route_b"])[0]
+        b2 = build_operand(spec_of_table(build_operand(case["spec_a"], case["route_a"])[0]), case["route_b"],
+                           need_model=False)[0]
     else:
-        a2 = build_operand(case["spec_a"], case["route_a"])[0]
-        b2 = build_operand(case["spec_b"], case["route_b"])[0]
+        b2 = build_operand(case["spec_b"], case["route_b"], need_model=False)[0]
+    a2 = build_operand(case["spec_a"], case["route_a"], need_model=False)[0]
     for t2 in (a2, b2):
         m2 = t2.matrix_data
         if m2.getformat() == "csr" and not m2.has_sorted_indices:
             ctx.count("fresh-queries-on-unsorted-csr")
-    cells_a, vecs_a = fresh_queries(a2)
-    cells_b, vecs_b = fresh_queries(b2)
+    qorder, qrot = case.get("qorder", "cos"), int(case.get("qrot", 0))
+    cells_a, vecs_a = fresh_queries(a2, qorder, qrot)
+    cells_b, vecs_b = fresh_queries(b2, qorder, qrot)
+    ctx.count("query-order=" + qorder)
     ca, cb = content(a), content(b)
     checks = [checkpoint(a, b)]
     resolved = []
     for k, (side, name) in enumerate(steps):
-        rn = do_accessor(b if side == 1 else a, name, k, cells_b if side == 1 else cells_a)
+        rn = do_accessor(b if side == 1 else a, name, k, cells_b if side == 1 else cells_a,
+                         vecs_b if side == 1 else vecs_a)
         resolved.append([side, rn])
         ctx.count("accessor=" + rn)
         checks.append(checkpoint(a, b))
@@ -959,9 +1067,17 @@ def dispatch(ctx, case, tags=()):
     raise ValueError("unknown case kind %r" % k)
 
 
-def pair_case(spec_a, route_a, spec_b, route_b, steps, expect, exports=False):
+QORDERS = ["cos", "cso", "ocs", "osc", "sco", "soc", "os", "so", "c"]
+_qn = [0]
+
+
+def pair_case(spec_a, route_a, spec_b, route_b, steps, expect, exports=False, qorder=None):
+    # the order in which the per-cell / per-ID questions are asked rotates through all block orders
+    _qn[0] += 1
+    if qorder is None:
+        qorder = QORDERS[_qn[0] % len(QORDERS)]
     return {"kind": "pair", "spec_a": spec_a, "route_a": route_a, "spec_b": spec_b, "route_b": route_b,
-            "steps": steps, "exports": bool(exports), "expect": expect}
+            "steps": steps, "exports": bool(exports), "expect": expect, "qorder": qorder, "qrot": _qn[0] % 3}
 
 
 def run(ctx):
@@ -1054,6 +1170,41 @@ def run(ctx):
         run_pair(ctx, pair_case(spec, rng.choice(CHANGING_ROUTES), None, rng.choice(["dense", "csr", "lol_coo_zeros", "csc"]),
                                 gen_steps(rng, rng.choice([0, 0, 1, 2])), "equal", exports=(k % 10 == 0)),
                  ("changing-history",))
+
+    # 4d. in-place changes (values along one axis, or two IDs swapped) on twins of equal content, one of which
+    #     was read along that axis before the change; the same-axis questions come first afterwards
+    for k in range(110 if quick else 3000):
+        spec = gen_spec(rng, quick, nonuniform=False)
+        axis = rng.choice(["observation", "sample"])
+        op = INPLACE_OPS[k % len(INPLACE_OPS)]
+        ra = inplace_route(rng.choice(["dense", "csr_unsorted", "csc", "lol_coo_zeros"]), rng.choice([1, 1, 2]), op, axis)
+        rb = inplace_route(rng.choice(["dense", "csr", "coo"]), 0, op, axis)
+        first = "o" if axis == "observation" else "s"
+        qorder = first + rng.choice(["", "c", "cs" if first == "o" else "co", "sc" if first == "o" else "oc"])
+        acc_same = ["data_obs", "iter_obs"] if axis == "observation" else ["data_samp", "iter_samp"]
+        st = [[rng.randint(0, 1), rng.choice(acc_same + ACCESSORS)] for _ in range(rng.choice([0, 1, 2]))]
+        ctx.count("inplace-op=%s:%s" % (op, axis))
+        if k % 2 == 0:
+            run_pair(ctx, pair_case(spec, ra, spec, rb, st, "equal", exports=(k % 12 == 0), qorder=qorder),
+                     ("inplace", "op=" + op))
+        else:
+            run_pair(ctx, pair_case(spec, rb, spec, ra, st, "equal", exports=(k % 12 == 1), qorder=qorder),
+                     ("inplace", "op=" + op))
+
+    # 4e. metadata dicts that differ only in key insertion order on some IDs: equal tables, equal exports
+    for k in range(50 if quick else 1200):
+        spec = gen_spec(rng, quick, nonuniform=False)
+        if k % 2 == 0 or not reorderable(spec.get("omd")):
+            spec["omd"] = core.gen_md(rng, spec["obs"], kind=rng.choice(["mixed", "text"]))
+        if k % 3 == 0:
+            spec["smd"] = core.gen_md(rng, spec["samp"], kind=rng.choice(["mixed", "text"]))
+        route = ["md_reordered", "md_completed_later"][k % 2]
+        other = rng.choice(["dense", "csr", "copy", "csc", "md_reordered"])
+        st = gen_steps(rng, rng.choice([0, 0, 1]))
+        if k % 4 < 2:
+            run_pair(ctx, pair_case(spec, route, spec, other, st, "equal", exports=True), ("key-order", "route=" + route))
+        else:
+            run_pair(ctx, pair_case(spec, other, spec, route, st, "equal", exports=True), ("key-order", "route=" + route))
 
     # 4c. one extra metadata key on one ID, compared both ways round (smaller table on the left and on the right),
     #     built by construction and by add_metadata
